@@ -4,6 +4,9 @@
 // terminal_is_recognised).  One instantiation per format because the hook structs are private.
 
 use super::*;
+macro_rules! vcover {
+    ($($t:tt)*) => { if option_env!("VERIF_NO_COVER").is_none() { kani::cover!($($t)*); } };
+}
 use crate::verif_common::{instr_round_trip, instr_size_field, terminal_is_recognised, Stored, SizeField};
 
 macro_rules! c03 {
@@ -38,6 +41,126 @@ c03!(c03_anm07_rt_n12, 15, instr_round_trip::<12>(&InstrFormat07, Stored { param
 c03!(c03_anm07_size_field, 4, instr_size_field(&InstrFormat07, Stored { param_mask: true, difficulty: false, extra_arg: false, pop_and_arg_count: false, maybe_terminal: false, ignore_param_mask: false }, SizeField { offset: 2, width: 2, counts_header: true, reader_max: 65535 }, 70000));
 //@ C03 c03_anm07_terminal quick default ANM v2+: the end-of-script marker written by write_terminal_instr is recognised as such by read_instr
 c03!(c03_anm07_terminal, 8, terminal_is_recognised(&InstrFormat07, false, 0));
+
+// ---------------------------------------------------------------------------------------
+// ANM entry header ("every table entry, count, offset"): write_header then read_header returns the
+// same header for every field the version stores; a value that does not fit its field is rejected
+// (guard fit_header_field, contract c03_anm_header_guard_*), never stored differently.
+
+pub fn stub_fit_header_field<T, U>(_emitter: &dyn Emitter, _field: &str, value: T) -> Result<U, ErrorReported>
+where
+    T: Copy + std::fmt::Display,
+    U: TryFrom<T>,
+{
+    // accepting half of the guard's contract; the rejecting half is proved on the real function below
+    match U::try_from(value) {
+        Ok(x) => Ok(x),
+        Err(_) => { kani::assume(false); loop {} },
+    }
+}
+
+fn arb_offset() -> Option<NonZeroU64> { NonZeroU64::new(kani::any()) }
+
+fn header_round_trip(game: Game) {
+    let emitter = crate::verif_common::noop_emitter();
+    let format = FileFormat::from_game(game);
+    let old = format.version.is_old_header();
+    let h = EntryHeaderData {
+        version: kani::any(), num_sprites: kani::any(), num_scripts: kani::any(),
+        rt_width: kani::any(), rt_height: kani::any(), rt_format: kani::any(),
+        name_offset: kani::any(),
+        secondary_name_offset: if old { arb_offset() } else { None },
+        colorkey: if old { kani::any() } else { 0 },
+        offset_x: if old { 0 } else { kani::any() },
+        offset_y: if old { 0 } else { kani::any() },
+        memory_priority: kani::any(),
+        thtx_offset: arb_offset(),
+        has_data: kani::any(),
+        low_res_scale: if old { 0 } else { kani::any() },
+        next_offset: kani::any(),
+    };
+    let mut w = BinWriter::from_writer(&emitter, "x", std::io::Cursor::new(Vec::<u8>::with_capacity(80)));
+    if let Err(e) = format.write_header(&mut w, &emitter, &h) {
+        core::mem::forget(e); core::mem::forget(w); core::mem::forget(format); core::mem::forget(emitter);
+        return;
+    }
+    vcover!(true, "the header writer accepts some header");
+    let bytes: Vec<u8> = w.into_inner().into_inner();
+    assert!(bytes.len() == 64, "an entry header is 16 dwords");
+    let mut r = BinReader::from_reader(&emitter, "x", std::io::Cursor::new(bytes));
+    let b = match format.read_header(&mut r, &emitter) {
+        Ok(b) => b,
+        Err(e) => { core::mem::forget(e); assert!(false, "written header cannot be read back"); return; },
+    };
+    assert!(b.version == h.version, "header version read back differs");
+    assert!(b.num_sprites == h.num_sprites && b.num_scripts == h.num_scripts, "sprite/script count read back differs");
+    assert!(b.rt_width == h.rt_width && b.rt_height == h.rt_height && b.rt_format == h.rt_format, "rt_width/rt_height/rt_format read back differs");
+    assert!(b.name_offset == h.name_offset && b.secondary_name_offset == h.secondary_name_offset, "name offset read back differs");
+    assert!(b.colorkey == h.colorkey, "colorkey read back differs");
+    assert!(b.offset_x == h.offset_x && b.offset_y == h.offset_y, "offset_x/offset_y read back differs");
+    assert!(b.memory_priority == h.memory_priority, "memory_priority read back differs");
+    assert!(b.thtx_offset == h.thtx_offset && b.next_offset == h.next_offset, "texture/next-entry offset read back differs");
+    assert!(b.has_data == h.has_data && b.low_res_scale == h.low_res_scale, "has_data/low_res_scale read back differs");
+    core::mem::forget(format);
+    core::mem::forget(emitter);
+}
+
+macro_rules! c03h {
+    ($name:ident, $unwind:literal, $body:expr) => {
+        #[kani::proof]
+        #[kani::unwind($unwind)]
+        #[kani::stub(alloc::fmt::format, crate::verif_common::stub_fmt_format)]
+        #[kani::stub(crate::error::ErrorReported::new, crate::verif_common::stub_error_reported_new)]
+        #[kani::stub(crate::io::nice_display_path, crate::verif_common::stub_nice_display_path)]
+        #[kani::stub(fit_header_field, stub_fit_header_field)]
+        fn $name() { $body }
+    };
+}
+//@ C03 c03_anm_header_new_rt quick default ANM entry header, TH07+ layout: write_header then read_header returns every stored field unchanged (version, counts, rt size/format, name/texture/next offsets, offset_x/y, memory priority, has_data, low_res_scale) for every header value; what does not fit its 16/32-bit field is rejected, never stored differently
+c03h!(c03_anm_header_new_rt, 8, header_round_trip(Game::Th12));
+//@ C03 c03_anm_header_old_rt quick default ANM entry header, TH06 layout: write_header then read_header returns every stored field unchanged (incl. colorkey and the secondary name offset)
+c03h!(c03_anm_header_old_rt, 8, header_round_trip(Game::Th06));
+
+macro_rules! header_guard_harness {
+    ($name:ident, $t:ty, $u:ty) => {
+        #[kani::proof]
+        #[kani::unwind(4)]
+        #[kani::stub(alloc::fmt::format, crate::verif_common::stub_fmt_format)]
+        #[kani::stub(crate::error::ErrorReported::new, crate::verif_common::stub_error_reported_new)]
+        fn $name() {
+            let emitter = crate::verif_common::noop_emitter();
+            let v: $t = kani::any();
+            let real: Result<$u, ErrorReported> = fit_header_field(&emitter, "field", v);
+            let fits = (v as i128) >= (<$u>::MIN as i128) && (v as i128) <= (<$u>::MAX as i128);
+            match real {
+                Ok(x) => { assert!(fits, "accepted a value that does not fit"); assert!((x as i128) == (v as i128), "stored a different value"); },
+                Err(e) => { assert!(!fits, "rejected a value that fits"); core::mem::forget(e); },
+            }
+            core::mem::forget(emitter);
+        }
+    };
+}
+//@ C03 c03_anm_header_guard_u32_u16 quick default fit_header_field::<u32,u16>: Ok(v) exactly when v fits in 16 bits, and then unchanged; otherwise an error is reported (real function, real emitter)
+header_guard_harness!(c03_anm_header_guard_u32_u16, u32, u16);
+//@ C03 c03_anm_header_guard_u64_u32 quick default fit_header_field::<u64,u32> (offsets): accepted exactly when representable, stored unchanged
+header_guard_harness!(c03_anm_header_guard_u64_u32, u64, u32);
+
+//@ C03 c03_anm_sprite_rt quick default ANM sprite table entry: write_sprite then read_sprite returns the same id, offset and size (floats bit for bit)
+c03!(c03_anm_sprite_rt, 6, {
+    let emitter = crate::verif_common::noop_emitter();
+    let id: u32 = kani::any();
+    let sp = Sprite { id: None, offset: [kani::any(), kani::any()], size: [kani::any(), kani::any()] };
+    let mut w = BinWriter::from_writer(&emitter, "x", std::io::Cursor::new(Vec::<u8>::with_capacity(32)));
+    write_sprite(&mut w, id, &sp).ok().expect("writing a sprite cannot fail");
+    let bytes: Vec<u8> = w.into_inner().into_inner();
+    assert!(bytes.len() == 20, "a sprite entry is 20 bytes");
+    let mut r = BinReader::from_reader(&emitter, "x", std::io::Cursor::new(bytes));
+    let back = match read_sprite(&mut r) { Ok(b) => b, Err(e) => { core::mem::forget(e); assert!(false, "written sprite cannot be read back"); return; } };
+    assert!(back.id == Some(id), "sprite id read back differs");
+    assert!(back.offset[0].to_bits() == sp.offset[0].to_bits() && back.offset[1].to_bits() == sp.offset[1].to_bits(), "sprite offset read back differs");
+    assert!(back.size[0].to_bits() == sp.size[0].to_bits() && back.size[1].to_bits() == sp.size[1].to_bits(), "sprite size read back differs");
+    core::mem::forget(emitter);
+});
 
 #[cfg(kani)]
 #[path = "/verif/.cache/playback/anm_read_write.rs"]
